@@ -592,6 +592,11 @@ def run(ctx):
     ctx.soft(rule_K4)
     ctx.soft(rule_K5)
     ctx.soft(rule_K6)
+    # a cached proposal / tree holder is served again and again: the trees handed out from it must share nothing
+    # mutable with the cached entry (same rule object as C06.M4)
+    from . import _premises
+
+    _premises.deep_copies(ctx)
 
 
 _UU = "phyclone/utils/utils.py"
